@@ -77,7 +77,7 @@ def run(ctx):
                 "distinct = cases + bit strings + element values.")
     ctx.assumptions += [
         "only fields the opcode's layout carries are compared; enumeration-typed fields take defined members; GPS coordinates are drawn from the decoder's grid (raw two's complement value x step) where equality is asked; in-range coordinates between two grid points must serialise and come back as a neighbouring grid point",
-        "for arbitrary bits the obligation is a documented error (ValueError, KeyError, NotImplementedError, AssertionError) or a fixed point of decode-then-encode",
+        "for arbitrary bits the obligation is a documented 'undefined / not implemented' error (ValueError, KeyError, NotImplementedError) or a fixed point of decode-then-encode",
         "an undefined element value may raise or map to a member, never to nothing; where the standard assigns undefined values to reserved / manufacturer-specific ranges (spec/Elements.tla, ten elements) the member must be the one of that range; the feature set id is exempt (unlisted manufacturer ids are folded onto the first listed manufacturer, asserted by the repository's tests)",
         "absolute bit offsets against the spec layouts are reported as model drift, the statement promises a round trip",
     ]
